@@ -306,6 +306,39 @@ pub fn run(session: &Session) -> i32 {
             }
         }
     }
+    // functions of every arity from 0 to 3 (user-written, native iterators, std functions) x
+    // argument lists of 0 to 4 values
+    let functions = [
+        "f := () -> int { return 7; }",
+        "f := () { }",
+        "f := [1, 2]~",
+        "f := [1, 2, 3]~ ? (x: int) -> bool { return x > 1; }",
+        "f := [1.5]~ @ (x: float) -> float { return x * 2.0; }",
+        "c := mut 0; f := () -> (bool, int) { c += 1; return (*c < 3, *c); }",
+        "f := (a: any) -> any { return a; }",
+        "f := (a: int, b: string) -> string { return b + a; }",
+        "f := (a: int|string, b: [int]) -> any { return (a, b); }",
+        "f := (a: int, b: int, c: int) -> int { return a + b * c; }",
+        "f := std.len",
+        "f := std.convert.to_float",
+    ];
+    let pool = ["1", "\"s\"", "2.5", "[1]", "()", "true", "(1, 2)"];
+    for program in functions {
+        let mut lists: Vec<Vec<&str>> = vec![vec![]];
+        for a in pool {
+            lists.push(vec![a]);
+            for b in pool {
+                lists.push(vec![a, b]);
+            }
+        }
+        for l in [vec!["1", "2", "3"], vec!["1", "\"s\"", "[1]"], vec!["1", "2", "3", "4"], vec!["()", "()", "()"], vec!["\"s\"", "[1]", "1", "2.5"]] {
+            lists.push(l);
+        }
+        for l in lists {
+            let arity = if l.is_empty() { 0 } else { 3 };
+            cases.push(json!({"kind": "call", "program": program, "args": l, "arity": arity}));
+        }
+    }
     session.set_extra("enumerated_call_cases", json!(cases.len()));
     if !session.stopped() {
         session.run_enum(&C17, cases);
@@ -314,7 +347,7 @@ pub fn run(session: &Session) -> i32 {
         session.run_tapes(&C17, session.tier.of(12_000, 600_000), 600, 0);
     }
     session.finish(
-        "(repl) tape-generated typed programs are split into REPL inputs of 1-3 top-level statements; after every input the incremental route (parse against the live interpreter, exec_unscoped) is compared with the batch route (the whole prefix as one program into a fresh interpreter) on the last result and on the canonical value of every top-level variable, until the routes diverge in acceptance (allowed, counted) or end in the same error; the full program is then executed twice from one Code: equal canonical results, no cell of the first result is the same object as a cell of the second, and the interpreter the code was parsed against has none of the program's names. (call) every third (quick) / every (thorough) accepted one-parameter function of the operator x operand-type matrix x every value of every catalogue type, plus arity changes: Function::create_call must accept exactly the argument lists the in-language call `f(v)` accepts and return the same value or error. Non-trivial = a later input mentions an earlier binding / an ill-typed or wrong-arity argument list; distinct by text.",
+        "(repl) tape-generated typed programs are split into REPL inputs of 1-3 top-level statements; after every input the incremental route (parse against the live interpreter, exec_unscoped) is compared with the batch route (the whole prefix as one program into a fresh interpreter) on the last result and on the canonical value of every top-level variable, until the routes diverge in acceptance (allowed, counted) or end in the same error; the full program is then executed twice from one Code: equal canonical results, no cell of the first result is the same object as a cell of the second, and the interpreter the code was parsed against has none of the program's names. (call) every third (quick) / every (thorough) accepted one-parameter function of the operator x operand-type matrix x every value of every catalogue type, plus arity changes, and 12 functions of 0 to 3 parameters (user-written, native and user-written iterators, std functions) x argument lists of 0 to 4 values: Function::create_call must accept exactly the argument lists the in-language call `f(v)` accepts and return the same value or error. Non-trivial = a later input mentions an earlier binding / an ill-typed or wrong-arity argument list; distinct by text.",
         false,
         &["acceptance differences between the routes of the REPL comparison are permitted by the property and end the comparison of that case"],
     )
